@@ -125,12 +125,17 @@ class C10(Prop):
     ID = "C10"
     MODULE = "AwProofs.Props.C10"
     THEOREMS = [
-        "AwProofs.C10.out_nonoverlap_positive",
-        "AwProofs.C10.cover_iff",
+        "AwProofs.C10.out_nonoverlap_positive_partial",
+        "AwProofs.C10.cover_iff_partial",
         "AwProofs.C10.label_monotone",
-        "AwProofs.C10.sorted_out_nonoverlap_positive",
-        "AwProofs.C10.sorted_cover_iff",
+        "AwProofs.C10.input_time_covered",
+        "AwProofs.C10.out_positive",
+        "AwProofs.C10.sorted_out_nonoverlap_positive_partial",
+        "AwProofs.C10.sorted_cover_iff_partial",
         "AwProofs.C10.sorted_label_monotone",
+        "AwProofs.C10.out_nonoverlap_positive_refuted",
+        "AwProofs.C10.cover_iff_refuted",
+        "AwProofs.C10.sort_stable",
     ]
     TRUSTED = [
         "timedelta(seconds=pulsetime) -> microseconds is computed by Python at the harness boundary",
@@ -300,11 +305,18 @@ class C10(Prop):
     def nontrivial(self, case, out):
         return len(case["l"]) >= 2 and in_scope(pulsetime_us(case["pt"]), case["l"])
 
+    def scope(self, case, out):
+        """known finding `submillisecond-duration`: some input duration is not a whole number of
+        milliseconds (the negation of `WholeMsDurations` in AwProofs.C10.*_partial)"""
+        if any(e[2] % MS != 0 for e in case["l"]):
+            return "submillisecond-duration"
+        return None
+
     def features(self, case, out):
         pt = pulsetime_us(case["pt"])
         l = case["l"]
         sc = in_scope(pt, l)
-        fs = ["scope:in" if sc else "scope:out", f"n:{min(len(l), 9)}{'+' if len(l) > 9 else ''}"]
+        fs = ["scope:in" if sc else "scope:out", "durations:" + ("whole-ms" if self.scope(case, out) is None else "sub-ms"), f"n:{min(len(l), 9)}{'+' if len(l) > 9 else ''}"]
         s = sorted(l, key=lambda e: e[1])
         for a, b in zip(s, s[1:]):
             fs.append(gap_class(pt, a, b))
